@@ -462,6 +462,30 @@ impl Sim {
     fn has_role_guard(&mut self, t: &mut Trace, k: usize, r: usize, body_auth: bool, variant: u64, auth: &[usize]) -> bool {
         let e = self.e.clone();
         match self.kind {
+            Kind::Nft if variant >= 4 => {
+                // THIRD-PARTY burn_from(spender = k, from = owner of some token, token): the role guard
+                // is on the SPENDER, the body needs the spender's authorization and an approval of the
+                // spender for that token (variant 4/5: approved first by the owner, 6/7: not approved)
+                assert!(r == 1);
+                let other = (0..self.next_token).find_map(|x| {
+                    let o: Option<Address> = self.q("owner_of", args(&e, [v(&e, x)]));
+                    o.and_then(|o| self.u.index_of(&o)).filter(|&o| o != k).map(|o| (x, o))
+                });
+                let Some((tok, owner)) = other else {
+                    return self.has_role_guard(t, k, r, body_auth, variant % 4, auth);
+                };
+                let approved = variant < 6;
+                if approved {
+                    let lu = self.now + 100;
+                    let ok = call(&e, &self.c, "approve", args(&e, [self.ad(owner), self.ad(k), v(&e, tok), v(&e, lu)]), &[self.u.a(owner)]);
+                    assert!(ok.is_some(), "approve failed");
+                } else {
+                    // make sure no earlier approval / operator grant of this spender is left
+                    let _ = call(&e, &self.c, "approve", args(&e, [self.ad(owner), self.ad(owner), v(&e, tok), v(&e, self.now + 1)]), &[self.u.a(owner)]);
+                }
+                let line = format!("ac has_role k={} r=1 ba=1 body={} auth={}", k, approved as u8, join(auth));
+                self.invoke(t, line, &[], "burn_from", args(&e, [self.ad(k), self.ad(owner), v(&e, tok)]), auth)
+            }
             Kind::Nft => {
                 assert!(r == 1);
                 let (tok, owns) = match self.owned_token(k) {
@@ -688,6 +712,18 @@ fn directed(t: &mut Trace, thorough: bool) {
     s.has_role_guard(t, 2, 1, true, 3, &[2]); // burner, authorizing, not the owner of that token
     s.has_role_guard(t, 2, 1, true, 0, &[2]);
     s.has_role_guard(t, 2, 1, true, 1, &[2]);
+    // third-party burn_from: burner 2 burns a token of account 3 (approved / not approved), with
+    // only the owner signing, only the burner signing, both, nobody
+    s.only_role(t, 1, 0, 3, &[1]);
+    s.only_role(t, 1, 0, 3, &[1]);
+    s.only_role(t, 1, 0, 3, &[1]);
+    s.has_role_guard(t, 2, 1, true, 4, &[3]);
+    s.has_role_guard(t, 2, 1, true, 4, &[]);
+    s.has_role_guard(t, 2, 1, true, 6, &[2]);
+    s.has_role_guard(t, 2, 1, true, 6, &[2, 3]);
+    s.has_role_guard(t, 2, 1, true, 4, &[2]);
+    s.has_role_guard(t, 4, 1, true, 4, &[4]); // approved by the owner but no burner
+    s.has_role_guard(t, 2, 1, true, 5, &[2, 3]);
     s.has_any(t, 2, true, &[2]);
     s.has_any(t, 2, true, &[]);
     s.has_any(t, 3, true, &[3]);
@@ -1037,7 +1073,7 @@ fn random_sequence(t: &mut Trace, rng: &mut Rng, k: u64, seed: u64, len: u64, lo
                         let mem = s.members(1);
                         let caller = if !mem.is_empty() && rng.chance(70) { *rng.pick(&mem) } else { caller };
                         let auth = gen_auth(rng, Some(caller));
-                        s.has_role_guard(t, caller, 1, true, rng.below(4), &auth);
+                        s.has_role_guard(t, caller, 1, true, rng.below(8), &auth);
                     }
                 }
                 4 => {
